@@ -88,7 +88,9 @@ func Secret(k int) []byte {
 }
 
 // PubKey is the compressed public key of pool key k.
-func PubKey(k int) []byte { return ec.SerializeCompressed(ec.BaseMul(new(big.Int).SetBytes(Secret(k)))) }
+func PubKey(k int) []byte {
+	return ec.SerializeCompressed(ec.BaseMul(new(big.Int).SetBytes(Secret(k))))
+}
 
 func p2pkhScript(h []byte) []byte {
 	return append(append([]byte{0x76, 0xa9, 0x14}, h...), 0x88, 0xac)
@@ -201,7 +203,7 @@ func (b *Builder) SigOps(k int) []byte {
 		s = append(s, 0xac)
 	}
 	s = append(s, 0x68, 0x51) // OP_ENDIF OP_1
-	if k > 190 { // more than 201 non-push opcodes: the script can never be executed successfully
+	if k > 190 {              // more than 201 non-push opcodes: the script can never be executed successfully
 		return b.reg(s, &Recipe{Kind: "dead"})
 	}
 	return b.reg(s, &Recipe{Kind: "true"})
@@ -232,6 +234,14 @@ func (b *Builder) OpReturnThenSigOps(k int) []byte {
 		s = append(s, 0xac)
 	}
 	return b.reg(s, &Recipe{Kind: "opreturn"})
+}
+
+// Unspendable registers a script that the builder never spends (nobody has a key / preimage for it).
+func (b *Builder) Unspendable(script []byte) []byte {
+	if r := b.Recipes[string(script)]; r != nil {
+		return script
+	}
+	return b.reg(script, &Recipe{Kind: "dead"})
 }
 
 func (b *Builder) WrapP2SH(inner []byte) []byte {
